@@ -56,9 +56,13 @@ macro_rules! battery {
                 match prop {
                     "C01" | "C02" => {
                         let x = date(a);
-                        let mut s = format!("{:?} wd={} doy={} w={} q={} e={} D={}", x.as_ymd(), x.weekday(), x.day_of_year(), x.format("w"), x.format("q"), x.format("e"), x.format("D"));
-                        s += &format!(" from_ymd={}", res(Date::from_ymd(b as i32, cc as u32, d as u32), show_d));
-                        s += &format!(" dt_from_ymd={}", res(DateTime::from_ymd(b as i32, cc as u32, d as u32), show_dt));
+                        // C01 looks at year-month-day <-> day number, C02 at weekday, day of year, ISO week, quarter
+                        let mut s = if prop == "C01" { format!("{:?}", x.as_ymd()) } else { format!("wd={} doy={} w={} q={} e={} D={}", x.weekday(), x.day_of_year(), x.format("w"), x.format("q"), x.format("e"), x.format("D")) };
+                        if prop == "C01" {
+                            s += &format!(" from_ymd={}", res(Date::from_ymd(b as i32, cc as u32, d as u32), show_d));
+                            s += &format!(" dt_from_ymd={}", res(DateTime::from_ymd(b as i32, cc as u32, d as u32), show_dt));
+                            return s;
+                        }
                         s += &format!(" set_doy={}", res(x.set_day_of_year(e as u32), show_d));
                         // the same through a DateTime read with an offset (local date may differ from the UTC date)
                         let offs = [0i64, 7200, -7200, 3600, -3661, 86_399, -86_399, 1800];
@@ -108,9 +112,12 @@ macro_rules! battery {
                         let p1 = p(|| format!("{} {} {} {} {} {} {}", x.days_since(&y), x.hours_since(&y), x.minutes_since(&y), x.seconds_since(&y), x.millis_since(&y), x.micros_since(&y), x.nanos_since(&y)));
                         let p2 = p(|| format!("{} {}", x.months_since(&y), x.years_since(&y)));
                         let p3 = p(|| format!("{} {} {} {} {} {}", tx.hours_since(&ty), tx.minutes_since(&ty), tx.seconds_since(&ty), tx.millis_since(&ty), tx.micros_since(&ty), tx.nanos_since(&ty)));
-                        let p4 = p(|| format!("{} {} {}", date(a).days_since(&date(d)), date(a).months_since(&date(d)), date(a).years_since(&date(d))));
                         let p5 = p(|| format!("{:?} {:?} {:?}", x.duration_between(&y), tx.duration_between(&ty), date(a).duration_between(&date(d))));
-                        format!("{} | {} | t {} | d {} | dur {}", p1, p2, p3, p4, p5)
+                        // C06 looks at the fixed-length units and Duration, C07 at calendar months and years
+                        if prop == "C07" {
+                            return format!("{} | d {}", p2, p(|| format!("{} {}", date(a).months_since(&date(d)), date(a).years_since(&date(d)))));
+                        }
+                        format!("{} | t {} | d {} | dur {}", p1, p3, p(|| format!("{}", date(a).days_since(&date(d)))), p5)
                     }
                     "C08" => {
                         let x = time(a.rem_euclid(86_400_000_000_000), b);
@@ -161,7 +168,8 @@ macro_rules! battery {
                         // constructors of Time with their error texts (the stated range is part of C15)
                         let r3 = format!("{} {} {} {}", r3, res(Time::from_hms(v, (e & 63) as u32, (a & 63) as u32), show_t), res(Time::from_seconds(v), show_t),
                             res(Time::from_nanos(if e % 3 == 0 { 86_400_000_000_000 + (d as u64 % 3) } else if e % 3 == 1 { (d as u64).wrapping_mul(1_000_003) } else { 4_294_967_296_000_000_000u64.wrapping_mul(1 + (d as u64 % 4)).wrapping_add(d as u64 % 1000) }), show_t));
-                        format!("{} || {} || {}", r, r2, r3)
+                        // C09 looks at setters and clears, C10 at what offsets do to readings and conversions, C15 (projected to Ok / Err) at all of it
+                        match prop { "C09" => r, "C10" => r2, _ => format!("{} || {} || {}", r, r2, r3) }
                     }
                     "C11" => {
                         let x = dt(a, b, cc);
